@@ -56,8 +56,8 @@ def parse_succ_tables(out):
         moves = {}
         for r, ops in succ:
             ra, rG = _plain(r["a"]), _plain(r["G"])
-            for op, d, m, free in ops:
-                moves[(str(op), str(d), "+".join(sorted(map(str, m))))] = (bool(free), ra, rG)
+            for op, d, m, ix, free in ops:
+                moves[(str(op), str(d), "+".join(sorted(map(str, m))), str(ix))] = (bool(free), ra, rG)
         if k in table and table[k][2].keys() != moves.keys():
             raise Machinery("successor table of a state differs between depths")
         table[k] = (a, G, moves)
@@ -129,12 +129,18 @@ def kn(dims):
     return [(d["k"], 0 if d["k"] in X.GRID_KINDS else d["n"]) for d in dims]
 
 
+def gd_pre(a):
+    ks = [q["k"] for q in a["dims"] if q["k"] in X.GRID_KINDS]
+    return ks[0] if ks else None
+
+
 def py_failed(ln, a, G, free, e):
+    ix = ln.get("ix", "-")
     """Mirror of TraceUxOps!Clauses, used to decide how the replay continues and to cross-check the judge."""
     f = set()
     op = ln["op"]
-    own = X.base(op) in X.OWN_OPS
-    if ln["out"] == "raised" or (ln["out"] == "refused" and not free) or (ln["out"] == "xr_refused" and own):
+    own = X.base(op, ix) in X.OWN_OPS
+    if ln["out"] == "raised" or (ln["out"] == "refused" and not free) or (ln["out"] == "xr_refused" and own and op not in X.GSEL_OPS):
         f.add("Raises")
     if ln["val"] == "diff":
         f.add("ValuesAsXarray")
@@ -152,16 +158,19 @@ def py_failed(ln, a, G, free, e):
             f.add("GridDimsConsistent")
         if not all(ln["grid"] != 0 and d["size"] == ln["g"]["cnt"][d["k"]] for d in gd):
             f.add("GridDimsNumeric")
-    if X.base(op) in X.FREE_OPS:
+    if X.base(op, ix) in X.FREE_OPS:
         ok = len(ln["dims"]) == len(a["dims"]) and all(
             l["k"] == p["k"] and (p["k"] in X.GRID_KINDS or l["n"] == p["n"]) for l, p in zip(ln["dims"], a["dims"]))
         if not ok:
             f.add("DimsEffect")
     elif not free and kn(ln["dims"]) != kn(e["dims"]):
         f.add("DimsEffect")
-    if isux and (not a["al"] or (X.base(op) in X.SELECT_OPS and len(ln["src"]) == len(ln["sel"]) and ln["src"] != ln["sel"])):
+    if isux and (not a["al"] or (X.base(op, ix) in X.SELECT_OPS and len(ln["src"]) == len(ln["sel"]) and ln["src"] != ln["sel"])):
         f.add("DataFollowsGrid")
-    if X.base(op) in X.COPY_OPS and not (a["grid"] in ln["g"]["eq"] and not ln["g"]["share"] and not ln["g"]["mem"] and not ln["g"]["leak"]):
+    if (op in X.GSEL_OPS and ln["wantok"] and X.base(op, ix) in X.SELECT_OPS and isux and gd_pre(a)
+            and not (ln["src"] == ln["want"] if gd_pre(a) == "n_face" else set(ln["want"]) <= set(ln["src"]))):
+        f.add("SelectsWhatXarraySelects")
+    if X.base(op, ix) in X.COPY_OPS and not (a["grid"] in ln["g"]["eq"] and not ln["g"]["share"] and not ln["g"]["mem"] and not ln["g"]["leak"]):
         f.add("DeepCopyIndependent")
     if not free and not (e["name"] == "free" or (ln["name"] if ln["name"] != "other" else "free") == e["name"]):
         f.add("Name")
@@ -188,20 +197,22 @@ class Runner:
         self.traces.append({"id": tid, "init": {"arr": init[0], "grids": init[1]}, "steps": [{k: v for k, v in s.items() if k != "on"} for s in steps],
                             "pre_kinds": [s["on"] for s in steps]})
 
-    def step(self, op, d, mix, node, x, xp, reg, env, a, G):
+    def step(self, op, d, mix, ix, node, x, xp, reg, env, a, G):
         """Apply one operation to the real array and the plain mirror; return (line, result, plain result)."""
         hux_ = X.hux.import_ux()
-        own = X.base(op) in X.OWN_OPS
+        own = X.base(op, ix) in X.OWN_OPS
         free = node["free"]
-        ln = {"op": op, "d": d, "m": list(mix), "out": "value", "val": "na", "src": [], "sel": [], "comp": []}
+        ln = {"op": op, "d": d, "m": list(mix), "ix": ix, "out": "value", "val": "na", "src": [], "sel": [], "want": [], "wantok": False, "comp": []}
+        gsel = op in X.GSEL_OPS
         r = rp = None
         err = perr = None
-        select = X.base(op) in X.SELECT_OPS
+        select = X.base(op, ix) in X.SELECT_OPS
         # a selection of FACES is exact (not inclusive): plain xarray's isel on the same data is the value oracle there too
-        use_oracle = ((not own and X.base(op) not in X.FREE_OPS) or (select and X.grid_dim(x) == "n_face")) and not mix
-        if use_oracle:
+        use_oracle = ((not own and X.base(op, ix) not in X.FREE_OPS) or (select and X.grid_dim(x) == "n_face")) and not mix
+        run_plain = use_oracle or gsel   # generic selections: plain xarray also says WHAT is selected (and whether it refuses)
+        if run_plain:
             try:
-                rp = X.apply(op, d, xp)
+                rp = X.apply(op, d, xp, ix=ix)
 
             except Exception as ex:  # noqa
                 perr = "%s: %s" % (type(ex).__name__, str(ex)[:160])
@@ -211,11 +222,11 @@ class Runner:
                 full = X.apply_ds_full(op, d, x, dest=env["dest"], mix=mix)
                 r = full["v"]
             else:
-                r = X.apply(op, d, x, dest=env["dest"])
+                r = X.apply(op, d, x, dest=env["dest"], ix=ix)
         except Exception as ex:  # noqa
             err = "%s: %s" % (type(ex).__name__, str(ex)[:160])
         if err is not None:
-            if use_oracle and perr is not None:
+            if run_plain and perr is not None:
                 ln["out"] = "xr_refused"
             elif free:
                 ln["out"] = "refused"
@@ -223,7 +234,21 @@ class Runner:
                 ln["out"] = "raised"
             ln["err"] = err
             return ln, None, rp
-        if use_oracle and perr is not None:
+        if gsel and perr is None and X.grid_dim(x) is not None:
+            # what plain xarray's isel selects with the same indexer: a tracer through plain isel
+            try:
+                import numpy as np
+                import xarray as xr
+
+                gk = X.grid_dim(x)
+                tp = xr.DataArray(np.arange(x.sizes[gk], dtype=float), dims=[gk])
+                ln["want"] = [int(v) for v in np.atleast_1d(np.asarray(X.apply(op, d, tp, ix=ix).values, dtype=float)).ravel().tolist()]
+                ln["wantok"] = True
+            except Exception:  # noqa
+                pass
+        if not use_oracle:
+            rp_keep, rp = rp, None
+        if run_plain and perr is not None:
             # plain xarray refuses, the subclass returns something: nothing to compare values with
             ln["val"] = "na"
             ln["perr"] = perr
@@ -235,14 +260,17 @@ class Runner:
             return ln, r, rp
         ln.update(X.project(r, reg))
         if select and ln["cls"] == "Ux" and ln["grid"] != 0 and X.grid_dim(r) is not None:
-            ln["src"], ln["sel"] = X.selection_maps(op, x, r, dest=env["dest"], d=d, mix=mix)
+            raw_src = None
+            ln["src"], ln["sel"], canon, raw_src = X.selection_maps(op, x, r, dest=env["dest"], d=d, mix=mix, ix=ix)
+            if canon is not None:
+                ln["want"] = [canon[i] if 0 <= i < len(canon) else i for i in ln["want"]]
             if not use_oracle:
                 # node / edge selections are inclusive: the data must be the operand's data at the tracer's source indices
                 k = X.grid_dim(x)
                 try:
                     import numpy as np
 
-                    want = np.take(np.asarray(x.values), ln["src"], axis=list(x.dims).index(k))
+                    want = np.take(np.asarray(x.values), raw_src, axis=list(x.dims).index(k))
                     ln["val"] = "eq" if tuple(r.dims) == tuple(x.dims) and X._arr_eq(np.asarray(r.values), want) else "diff"
                 except Exception:  # noqa
                     ln["val"] = "diff"
@@ -263,13 +291,13 @@ class Runner:
 
     def walk(self, kids, x, xp, reg, env, a, G, pid, seg_init, seg, restart):
         ux = X.hux.import_ux()
-        for (op, d, mx), node in sorted(kids.items()):
+        for (op, d, mx, ix), node in sorted(kids.items()):
             self.nodes += 1
             reg2 = reg.clone()
             mix = tuple(mx.split("+")) if mx else ()
-            ln, r, rp = self.step(op, d, mix, node, x, xp, reg2, env, a, G)
+            ln, r, rp = self.step(op, d, mix, ix, node, x, xp, reg2, env, a, G)
             e, eG, free = node["a"], node["G"], node["free"]
-            prog = pid + "/" + (op if d == "-" else op + ":" + d) + ("[%s]" % mx if mx else "")
+            prog = pid + "/" + (op if d == "-" else op + ":" + d) + ("[%s]" % mx if mx else "") + ("<%s>" % ix if ix != "-" else "")
             tid = prog if restart == 0 else "%s@%d" % (prog, restart)
             failed = py_failed(ln, a, G, free, e)
             line = {k: v for k, v in ln.items() if k not in ("err", "perr", "rtype")}
@@ -286,7 +314,7 @@ class Runner:
                 struct_ok = ln["out"] == "value" and not (failed & {"IsUx", "SameGrid", "DimsEffect", "GridDimsConsistent", "GridDimsNumeric", "Name", "DataFollowsGrid", "ValuesAsXarray"})
                 if struct_ok:
                     nx, nxp = r, (rp if rp is not None else X.to_plain(r))
-                elif X.base(op) not in X.OWN_OPS and X.base(op) not in X.FREE_OPS and X.base(op) not in X.COPY_OPS and rp is not None and e["grid"] <= len(reg.grids):
+                elif X.base(op, ix) not in X.OWN_OPS and X.base(op, ix) not in X.FREE_OPS and X.base(op, ix) not in X.COPY_OPS and rp is not None and e["grid"] <= len(reg.grids):
                     nx, nxp = ux.UxDataArray(rp, uxgrid=reg.grids[e["grid"] - 1]), rp
                     reg2 = reg.clone()
                 if nx is not None:
@@ -391,7 +419,9 @@ def run(ctx):
     allops = None
     for line in rg.out.splitlines():
         if line.startswith('"<<\\"OPS\\"'):
-            _, ops_, base_ = tlaval.parse(json.loads(line).replace("{", "<<").replace("}", ">>"))
+            _, ops_, base_, base2_ = tlaval.parse(json.loads(line).replace("{", "<<").replace("}", ">>"))
+            X.BASE2.clear()
+            X.BASE2.update({(str(n_), str(x_)): str(b_) for n_, x_, b_ in base2_})
             allops = set(map(str, ops_))
             X.BASE.clear()
             X.BASE.update({str(k): str(v) for k, v in base_.items() if str(k) != str(v)})
@@ -428,9 +458,9 @@ def run(ctx):
         # and of the pairs containing an operation on a MIXED dataset 1 in 120 (every such single operation is replayed:
         # all mixes x all selection dimensions x all start arrays)
         for s in starts:
-            for (op1, _d1, m1), n1 in tries[s].items():
+            for (op1, _d1, m1, x1), n1 in tries[s].items():
                 for k2 in sorted(n1["kids"]):
-                    if m1 or k2[2]:
+                    if m1 or k2[2] or x1 != "-" or k2[3] != "-":
                         keep = rng.random() < 1.0 / 120.0
                     else:
                         keep = op1.startswith("ds_") == k2[0].startswith("ds_") or rng.random() < 1.0 / 5.0
@@ -455,7 +485,7 @@ def run(ctx):
             prog = []
             for prev, st in zip(sts, sts[1:]):
                 o = st["last"]
-                prog.append((o["op"], o["d"], "+".join(sorted(o.get("m") or [])), None, st["arr"], st["grids"], prev["arr"]))
+                prog.append((o["op"], o["d"], "+".join(sorted(o.get("m") or [])), o.get("ix", "-"), None, st["arr"], st["grids"], prev["arr"]))
             sim_programs.append((sts[0]["arr"], sts[0]["grids"], prog))
         if not sim_programs:
             raise Machinery("no simulation behaviours parsed")
@@ -469,12 +499,12 @@ def run(ctx):
     # simulation programs: the free flag is not part of the state; recompute from the table when known, else from dims
     for i, (a0, G0, prog) in enumerate(sim_programs):
         kids = root = {}
-        for (op, d, mx, _, ea, eG, pa) in prog:
+        for (op, d, mx, ix, _, ea, eG, pa) in prog:
             gpos = [j for j, q in enumerate(pa["dims"]) if q["k"] in X.GRID_KINDS]
-            last_axis = X.base(op) in (set(X.TOPO) | set(X.REMAP))
-            free = X.base(op) in X.FREE_OPS or (last_axis and not (gpos and gpos[0] == len(pa["dims"]) - 1)) or (op == "ds_remap_nn_face" and "c0" in mx)
+            last_axis = X.base(op, ix) in (set(X.TOPO) | set(X.REMAP))
+            free = X.base(op, ix) in X.FREE_OPS or (last_axis and not (gpos and gpos[0] == len(pa["dims"]) - 1)) or (op == "ds_remap_nn_face" and "c0" in mx)
             n = new_node(free, ea, eG)
-            kids[(op, d, mx)] = n
+            kids[(op, d, mx, ix)] = n
             kids = n["kids"]
         tasks.append(("sim%d:%s" % (i, start_id(a0)), a0, G0, root))
     rng.shuffle(tasks)
@@ -514,13 +544,14 @@ def run(ctx):
         steps0, cur = [], s0
         for op in ops:
             op, d_, mx_ = op if isinstance(op, tuple) else (op, "-", "")
-            free_, ea, eG = table[cur][2][(op, d_, mx_)]
+            ix = "-"
+            free_, ea, eG = table[cur][2][(op, d_, mx_, "-")]
             cnt = sub_cnt if eG[ea["grid"] - 1]["kind"] == "subset" else base_cnt
             steps0.append({"op": op, "d": d_, "out": "value", "val": "eq", "cls": "Ux", "grid": ea["grid"], "name": "v",
                            "dims": [{"k": q["k"], "n": q["n"], "size": cnt[q["k"]] if q["k"] in X.GRID_KINDS else q["n"]} for q in ea["dims"]],
-                           "g": {"cnt": cnt, "eq": [1] if X.base(op) in X.COPY_OPS else [], "share": [], "mem": [], "leak": []},
-                           "src": [0, 1] if X.base(op) in X.SELECT_OPS else [], "sel": [0, 1] if X.base(op) in X.SELECT_OPS else [],
-                           "m": mx_.split("+") if mx_ else [],
+                           "g": {"cnt": cnt, "eq": [1] if X.base(op, ix) in X.COPY_OPS else [], "share": [], "mem": [], "leak": []},
+                           "src": [0, 1] if X.base(op, ix) in X.SELECT_OPS else [], "sel": [0, 1] if X.base(op, ix) in X.SELECT_OPS else [],
+                           "m": mx_.split("+") if mx_ else [], "ix": "-", "want": [], "wantok": False,
                            "comp": [{"c": c, "cls": "Ux", "grid": ea["grid"], "src": [0, 1] if c != "c0" else [], "sel": [0, 1] if c != "c0" else [], "val": "eq",
                                      "dims": [{"k": k, "n": ea["grid"] if k in X.GRID_KINDS else X.AUX_LEN[k], "size": cnt[k] if k in X.GRID_KINDS else X.AUX_LEN[k]}
                                               for k in X.COMP_SHAPE[c]]} for c in (mx_.split("+") if mx_ else [])]})
@@ -627,6 +658,8 @@ def run(ctx):
         for clause in cl:
             # abstract signature, from the specification's side: operation and the kind of grid it was applied on
             sig = {"op": step["op"], "on": t["pre_kinds"][ln - 1]}
+            if step.get("ix", "-") != "-":
+                sig["ix"] = step["ix"]
             obs = pyv[tid][2] if tid in pyv and pyv[tid][0] == ln else {k: step.get(k) for k in ("cls", "grid", "dims", "g", "comp", "m")}
             if clause.startswith("Mixed"):
                 sig["mix"] = "+".join(step.get("m", []))
